@@ -65,6 +65,15 @@ func (c Ctl) NodeT(tt byte) *N {
 		inner := Seq(Int(2, int64(c.Size)), P(0, 4, c.Cookie))
 		return Seq(Oct(oidPaging), P(0, 4, inner.Ser()))
 	case "behera":
+		if (c.Grace >= 0 || c.Expire >= 0) && c.Error >= 0 {
+			// a warning and an error in one value (the draft's PasswordPolicyResponseValue has both optional parts)
+			warn := P(2, 1, encInt(c.Grace))
+			if c.Grace < 0 {
+				warn = P(2, 0, encInt(c.Expire))
+			}
+			inner := Seq(C(2, 0, warn), P(2, 1, encInt(c.Error)))
+			return Seq(Oct(oidBehera), P(0, 4, inner.Ser()))
+		}
 		switch {
 		case c.Grace >= 0:
 			inner := Seq(C(2, 0, P(2, 1, encInt(c.Grace))))
@@ -376,6 +385,9 @@ func genCtls(rng *rand.Rand) []Ctl {
 	cs := make([]Ctl, n)
 	for i := range cs {
 		cs[i] = genCtl(rng)
+		if cs[i].Kind == "behera" && (cs[i].Grace >= 0 || cs[i].Expire >= 0) && rng.Intn(2) == 0 {
+			cs[i].Error = int64(rng.Intn(9)) // warning and error together: legal on the wire, though no constructor builds it
+		}
 	}
 	return cs
 }
